@@ -516,6 +516,11 @@ func runHoleTree(r *ev.Run, id string, idx int) {
 		}
 	}
 
+	// ---- the same tree through a fetcher that fails one seeded fetch once (treefaults.go)
+	if nviol < 3 {
+		checkTreeAfterFault(r, rng, st, root, schemaBlobs, viol)
+	}
+
 	// ---- control: io.ReadAll (fresh memory)
 	if nviol < 3 {
 		fr4, err := schema.NewFileReader(ctx, st, root.ref)
